@@ -17,7 +17,8 @@ impl Iterator for SymIter {
 impl ExactSizeIterator for SymIter {}
 
 fn vec_from(b: &[u8]) -> Vec<u8> {
-	let mut v: Vec<u8> = Vec::with_capacity(b.len() + 8);
+	// fixed capacity: a symbolic capacity is the single most expensive thing for the solver
+	let mut v: Vec<u8> = Vec::with_capacity(24);
 	let mut i = 0;
 	while i < b.len() { v.push(b[i]); i += 1; }
 	v
@@ -65,7 +66,7 @@ pub fn c15q_zst_every_count_deque() { append_zst::<VecDeque<()>>() }
 #[kani::unwind(7)]
 pub fn c15q_zst_empty_input() {
 	let n: usize = kani::any();
-	kani::assume(n <= 3 || n > (u32::MAX as usize) - 2);
+	kani::assume(n <= 3 || n > u32::MAX as usize);
 	let it = SymIter { n, yielded: 0, must_not_iterate: n > u32::MAX as usize };
 	let r = <Vec<()> as EncodeAppend>::append_or_new(Vec::new(), it);
 	match &r {
@@ -182,6 +183,22 @@ pub fn c15q_encode_like_items() {
 	let r = <Vec<String> as EncodeAppend>::append_or_new(Vec::new(), [st]);
 	match &r { Ok(o) => assert!(o.len() == 3 && o[0] == 4 && o[1] == 4 && o[2] == ch, "&str item appended differently from String"), Err(_) => assert!(false) }
 	core::mem::forget((a, b, c, r));
+}
+
+/// items that are zero-sized IN MEMORY but have a non-empty encoding (a fieldless one-variant enum encodes its index byte)
+#[cfg(feature = "ext")]
+#[derive(Encode, Clone, Copy)]
+pub enum OneVariant { #[codec(index = 9)] Only }
+#[cfg(feature = "ext")]
+#[kani::proof]
+#[kani::unwind(10)]
+pub fn c15q_zero_sized_items_with_encoding() {
+	let start = alloc::vec![1u8 << 2, 9];
+	let r = <Vec<OneVariant> as EncodeAppend>::append_or_new(start, [OneVariant::Only, OneVariant::Only]);
+	match &r { Ok(o) => assert!(o.len() == 4 && o[0] == 12 && o[1] == 9 && o[2] == 9 && o[3] == 9, "zero-sized items with a non-empty encoding were not appended"), Err(_) => assert!(false) }
+	let r2 = <VecDeque<OneVariant> as EncodeAppend>::append_or_new(Vec::new(), [OneVariant::Only]);
+	match &r2 { Ok(o) => assert!(o.len() == 2 && o[0] == 4 && o[1] == 9), Err(_) => assert!(false) }
+	core::mem::forget((r, r2));
 }
 
 /// histories: two successive appends == one append of the concatenation (inductive step)
